@@ -443,6 +443,8 @@ def _replay_one(case, abd=(2.0, 1.5, 0.75)):
             return buf.getvalue()
 
         def close(a, b):
+            if a == b or (a != a and b != b):       # equal infinities / both NaN (degenerate option values)
+                return True
             return abs(a - b) <= 1e-5 * max(1.0, abs(a), abs(b))
         try:
             out = run([])
@@ -511,6 +513,29 @@ def _replay_one(case, abd=(2.0, 1.5, 0.75)):
                     argv0[:] = argv_keep
                 if not close(doc[src]["gamma"], g1) or not close(doc[src2]["gamma"], g2):
                     bad.append(f"two files: JSON gammas {doc[src]['gamma']}, {doc[src2]['gamma']} != API {g1}, {g2}")
+                # a file with ONE category (and a unit that stays unaligned): every measure still comes from the computation
+                src3 = os.path.join(d, "single.csv")
+                with open(src3, "w") as f:
+                    for a_, rows_ in (("ann1", [("1", 0, 5), ("1", 6, 10), ("1", 12, 18), ("1", 30, 34)]), ("ann2", [("1", 0.5, 5.5), ("1", 6, 11), ("1", 12, 17)]),
+                                      ("ann3", [("1", 1, 5), ("1", 6.5, 10), ("1", 13, 18)])):
+                        for lab_, s_, e_ in rows_:
+                            f.write(f"{a_},{lab_},{s_},{e_}\n")
+                c3 = pa.Continuum.from_csv(src3)
+                cat3 = pa.LevenshteinCategoricalDissimilarity(c3.categories) if cd == "levenshtein" else \
+                    pa.NumericalCategoricalDissimilarity(c3.categories) if cd == "numerical" else None
+                np.random.seed(17)
+                r3 = c3.compute_gamma(dissimilarity=pa.CombinedCategoricalDissimilarity(alpha=alpha, beta=beta, delta_empty=delta, cat_dissim=cat3),
+                                      precision_level=prec, fast=True, n_samples=n, sampler=pa.ShuffleContinuumSampler() if case.get("mathet") else None)
+                want3 = dict(gamma=float(r3.gamma), gamma_cat=float(r3.gamma_cat), gamma_k=float(r3.gamma_k("1")))
+                pj3 = os.path.join(d, "o3.json")
+                argv0[0] = src3
+                try:
+                    run(["-j", pj3])
+                    doc3 = json.load(open(pj3))[src3]
+                finally:
+                    argv0[:] = argv_keep
+                if not close(doc3["gamma"], want3["gamma"]) or not close(doc3["gamma-cat"], want3["gamma_cat"]) or not close(doc3["gamma-k"]["1"], want3["gamma_k"]):
+                    bad.append(f"single-category file: JSON {doc3} != API {want3}")
                 gs = [float(l.split("=", 1)[1]) for l in out2.splitlines() if l.startswith("gamma=")]
                 if len(gs) != 2 or not close(gs[0], g1) or not close(gs[1], g2):
                     bad.append(f"two files: printed gammas {gs} != API {[g1, g2]}")
